@@ -388,7 +388,8 @@ func checkParallelResultsUntouched(p *Prog, r *Report, key string, fn *ssa.Funct
 func checkExportLoadsRequestedHeight(p *Prog, r *Report, kp func(string, string) string) {
 	n := 0
 	for _, fn := range p.ModFuncs {
-		if !InPkgs(fn, "cmd") || fn.Blocks == nil {
+		// the export command and the application's own height loader behind it
+		if !(InPkgs(fn, "cmd") || InPkgs(fn, "app") && !InPkgs(fn, "app/upgrades")) || fn.Blocks == nil {
 			continue
 		}
 		var o *Origin
